@@ -8,6 +8,7 @@ CONSTANTS
   Depth = 5
   MaxObjs = 3
   Parents = {"none"}
+  Fmts = {"F1", "F2"}
   Variant = "impl"
 INVARIANT ExactlyOnce
 INVARIANT RightList
